@@ -188,6 +188,7 @@ type caseA struct {
 	H       uint32  `json:"h"`
 	Outputs amounts `json:"outputs"`
 	Inputs  amounts `json:"inputs"`
+	Shape   string  `json:"input_shape,omitempty"` // set for the repeated-outpoint cases
 }
 
 type verdictA struct {
@@ -261,22 +262,24 @@ func judge(outs, ins *mset, v verdictA) (clause, what string) {
 }
 
 type workerOut struct {
-	Evals       int64            `json:"evals"`
-	OutChecks   int64            `json:"out_checks"`
-	Accepted    int64            `json:"accepted"`
-	Wrapped     int64            `json:"int64_sum_wrapped"`
-	WrappedAcc  int64            `json:"int64_sum_wrapped_and_accepted"`
-	Panics      map[string]int   `json:"panics"`
-	PerType     map[string][]int `json:"per_type"` // name -> [output multisets passing, fee evaluations, accepted]
-	Classes     map[string]int   `json:"classes"`
-	Violations  []evid.Violation `json:"violations"`
-	Samples     []interface{}    `json:"samples"`
-	Confirm     []confirmRes     `json:"confirm"`
-	OutAlphabet []int64          `json:"out_alphabet"`
-	NOutSets    int              `json:"output_multisets"`
-	NInSets     int              `json:"input_multisets"`
-	NInSetsBase int              `json:"input_multisets_baseline"`
-	Incomplete  bool             `json:"incomplete"`
+	Evals         int64            `json:"evals"`
+	OutChecks     int64            `json:"out_checks"`
+	Accepted      int64            `json:"accepted"`
+	Wrapped       int64            `json:"int64_sum_wrapped"`
+	WrappedAcc    int64            `json:"int64_sum_wrapped_and_accepted"`
+	Panics        map[string]int   `json:"panics"`
+	PerType       map[string][]int `json:"per_type"` // name -> [output multisets passing, fee evaluations, accepted]
+	Classes       map[string]int   `json:"classes"`
+	Violations    []evid.Violation `json:"violations"`
+	Samples       []interface{}    `json:"samples"`
+	Confirm       []confirmRes     `json:"confirm"`
+	OutAlphabet   []int64          `json:"out_alphabet"`
+	NOutSets      int              `json:"output_multisets"`
+	NInSets       int              `json:"input_multisets"`
+	NInSetsBase   int              `json:"input_multisets_baseline"`
+	Incomplete    bool             `json:"incomplete"`
+	ShapeEvals    int64            `json:"input_shape_evaluations"`
+	ShapeAccepted int64            `json:"input_shape_accepted"`
 }
 
 func wraps(m *mset) bool { return !m.Sum.IsInt64() }
@@ -501,6 +504,7 @@ func runEnum(r *evid.Run, scr string) workerOut {
 		res.Samples = append(res.Samples, map[string]interface{}{"case": c, "verdict": v})
 	}
 	res.Confirm = f.confirm()
+	f.runInputShapes(&res, addViol)
 	return res
 }
 
@@ -533,22 +537,24 @@ func less(a, b caseA) bool {
 // (a') light-node confirmation with signed transactions and real unspent outputs
 
 type confirmRes struct {
-	Name         string  `json:"name"`
-	Outputs      amounts `json:"outputs"`
-	InputValue   int64   `json:"input_value"`
-	ExactOutSum  string  `json:"exact_output_sum"`
-	Sanity       string  `json:"sanity"`
-	Context      string  `json:"context"`
-	Pool         string  `json:"pool"`
-	Accepted     bool    `json:"accepted"`
-	PoolAccepted bool    `json:"pool_accepted"`
+	Name           string  `json:"name"`
+	Outputs        amounts `json:"outputs"`
+	InputValue     int64   `json:"input_value"` // value of the DISTINCT outputs spent
+	Inputs         int     `json:"inputs_listed"`
+	DistinctInputs int     `json:"distinct_outpoints"`
+	ExactOutSum    string  `json:"exact_output_sum"`
+	Sanity         string  `json:"sanity"`
+	Context        string  `json:"context"`
+	Pool           string  `json:"pool"`
+	Accepted       bool    `json:"accepted"`
+	PoolAccepted   bool    `json:"pool_accepted"`
 }
 
 func (f *fixture) confirm() []confirmRes {
 	n := f.node
 	oh := f.owner.StandardHash()
 	var fundOuts []*common2.Output
-	for i := 0; i < 8; i++ {
+	for i := 0; i < 64; i++ {
 		fundOuts = append(fundOuts, lightnode.Output(oh, 1000))
 	}
 	fund, err := n.Fund("c01", fundOuts...)
@@ -556,17 +562,32 @@ func (f *fixture) confirm() []confirmRes {
 		evid.Fatalf("fund: %v", err)
 	}
 	pool := mempool.NewTxPool(n.Params, n.Ckp)
-	vectors := []struct {
+	type vec struct {
 		name string
 		outs []int64
-	}{
-		{"control: 900 from 1000", []int64{900}},
-		{"control: outputs exceed input without wrap", []int64{600, 600}},
-		{"four outputs of 2^62", []int64{1 << 62, 1 << 62, 1 << 62, 1 << 62}},
-		{"2^63-1, 2^63-1, 2 and 900", []int64{math.MaxInt64, math.MaxInt64, 2, 900}},
-		{"two outputs of 2^62 (sum wraps negative)", []int64{1 << 62, 1 << 62}},
+		ins  []inRef // nil = one input
+	}
+	vectors := []vec{
+		{"control: 900 from 1000", []int64{900}, nil},
+		{"control: outputs exceed input without wrap", []int64{600, 600}, nil},
+		{"four outputs of 2^62", []int64{1 << 62, 1 << 62, 1 << 62, 1 << 62}, nil},
+		{"2^63-1, 2^63-1, 2 and 900", []int64{math.MaxInt64, math.MaxInt64, 2, 900}, nil},
+		{"two outputs of 2^62 (sum wraps negative)", []int64{1 << 62, 1 << 62}, nil},
+		{"control: two distinct inputs, 1900 out", []int64{1900}, []inRef{{0, 0}, {1, 0}}},
+	}
+	// the same outpoint listed several times (equal / different Sequence), alone and next to a
+	// distinct outpoint, outputs between 1x and kx the referenced value
+	for _, sh := range inputShapes() {
+		k := int64(len(sh.Ins))
+		for _, total := range []int64{900, 1000*k - 1100, 1000*k - 100} {
+			if total <= 0 {
+				continue
+			}
+			vectors = append(vectors, vec{fmt.Sprintf("inputs %s, %d out", sh.Name, total), []int64{total}, sh.Ins})
+		}
 	}
 	var out []confirmRes
+	next := 0
 	for i, vct := range vectors {
 		var outs []*common2.Output
 		sum := new(big.Int)
@@ -575,14 +596,31 @@ func (f *fixture) confirm() []confirmRes {
 			sum.Add(sum, big.NewInt(v))
 		}
 		attr := common2.NewAttribute(common2.Nonce, []byte(fmt.Sprintf("c01-%d", i)))
+		shape := vct.ins
+		if shape == nil {
+			shape = []inRef{{0, 0}}
+		}
+		var ins []*common2.Input
+		distinct := map[int]bool{}
+		for _, ir := range shape {
+			in := lightnode.Input(fund, next+ir.Slot)
+			in.Sequence = ir.Seq
+			ins = append(ins, in)
+			distinct[ir.Slot] = true
+		}
+		next += len(distinct)
+		if next > 60 {
+			evid.Fatalf("C01 confirmation fixture: not enough funded outputs")
+		}
 		tx := transaction.CreateTransaction(common2.TxVersion09, common2.TransferAsset, 0, &payload.TransferAsset{},
-			[]*common2.Attribute{&attr}, []*common2.Input{lightnode.Input(fund, i)}, outs, 0, nil)
+			[]*common2.Attribute{&attr}, ins, outs, 0, nil)
 		p, err := lightnode.SignStandard(tx, f.owner)
 		if err != nil {
 			evid.Fatalf("sign: %v", err)
 		}
 		tx.SetPrograms([]*program.Program{p})
-		c := confirmRes{Name: vct.name, Outputs: vct.outs, InputValue: 1000, ExactOutSum: sum.String()}
+		c := confirmRes{Name: vct.name, Outputs: vct.outs, InputValue: 1000 * int64(len(distinct)), ExactOutSum: sum.String(),
+			Inputs: len(ins), DistinctInputs: len(distinct)}
 		h := n.Chain.GetHeight() + 1
 		func() {
 			defer func() {
@@ -623,16 +661,18 @@ func judgeConfirm(r *evid.Run, cs []confirmRes) {
 		sum, _ := new(big.Int).SetString(c.ExactOutSum, 10)
 		creates := sum.Cmp(big.NewInt(c.InputValue)) > 0
 		art := map[string]interface{}{"kind": "confirm", "case": c}
-		if c.Name == "control: 900 from 1000" && !(c.Accepted && c.PoolAccepted) {
+		if (c.Name == "control: 900 from 1000" || c.Name == "control: two distinct inputs, 1900 out") && !(c.Accepted && c.PoolAccepted) {
 			evid.Fatalf("C01 confirmation fixture: the control transaction is not accepted: %+v", c)
 		}
 		if creates && (c.Accepted || c.PoolAccepted) {
 			clause := "plain"
 			if sum.Cmp(two63) >= 0 {
 				clause = "output-sum-wraps"
+			} else if c.Inputs > c.DistinctInputs {
+				clause = "outpoint-counted-twice"
 			}
 			r.Violate("C01|value-created|"+clause+"|signed-transaction-accepted",
-				fmt.Sprintf("a signed TransferAsset spending one 1000-sela output with outputs %v (exact sum %s) passes CheckTransactionSanity + CheckTransactionContext (%s / %s) and the pool (%s)", c.Outputs, c.ExactOutSum, c.Sanity, c.Context, c.Pool), art)
+				fmt.Sprintf("a signed TransferAsset (%s) spending %d distinct 1000-sela output(s) with outputs %v (exact sum %s) passes CheckTransactionSanity + CheckTransactionContext (%s / %s) and/or the pool (%s)", c.Name, c.DistinctInputs, c.Outputs, c.ExactOutSum, c.Sanity, c.Context, c.Pool), art)
 		}
 	}
 }
